@@ -62,3 +62,19 @@ pub unsafe extern "C" fn syscall(num: c_long, a1: c_long, a2: c_long, a3: c_long
     }
     raw(num, a1, a2, a3, a4, a5, a6)
 }
+
+/// `pthread_join` (what `std::thread::JoinHandle::join` calls): when a registered thread joins another
+/// thread of the execution, the wait becomes the scheduling operation `Join` (enabled once the target's
+/// model thread has finished); afterwards the real join only reaps an OS thread that is on its way out.
+#[no_mangle]
+pub unsafe extern "C" fn pthread_join(thread: libc::pthread_t, retval: *mut *mut libc::c_void) -> libc::c_int {
+    type Real = unsafe extern "C" fn(libc::pthread_t, *mut *mut libc::c_void) -> libc::c_int;
+    static REAL: std::sync::OnceLock<usize> = std::sync::OnceLock::new();
+    let real = *REAL.get_or_init(|| libc::dlsym(libc::RTLD_NEXT, b"pthread_join\0".as_ptr() as *const libc::c_char) as usize);
+    if real == 0 {
+        return libc::EINVAL;
+    }
+    let _ = detsched::join_wait(thread as usize);
+    let f: Real = std::mem::transmute(real);
+    f(thread, retval)
+}
